@@ -65,6 +65,12 @@ recorded; a constructor keyword `<constant> if C else x.field` is refuted when C
 dropped for some objects), accepted when C only says the field is absent; joining predecessor ids with a function parameter
 (e.g. the csv delimiter) is refuted - the property fixes ';'.
 
+Round 10 additions: a row assembled statement by statement (`row = [..]`, append / extend / +=, if/else appends, loops over
+literal tuples unrolled, a final loop over the custom column list) is read as <fixed cells> + <custom cells> (_incremental_row);
+the bool reader must keep the legacy spelling 'True'/'False' (str of the bool) when the writer changes its own spelling;
+unicodedata.normalize(..) counts as text altering; an altered text in a Task(..)/TaskRaw(..) keyword or in the generic copy's
+value (also in the expanded conditional form of a helper) is refuted.
+
 Not decided: the csv module's quoting (trusted stdlib, default dialect only), a hand-rolled date parser with its own year
 pivot (undecided), custom attribute
 names that collide with Task members, tasks whose parent_id is dangling, numeric behaviour of float()/str().
@@ -403,6 +409,10 @@ def ob_columns(ctx, o, F):
         F.row_var = ast.Name(id=rowvar, ctx=ast.Load())
     else:
         rfixed, rcustom = _split_concat(r)
+        if isinstance(r, ast.Name) and isinstance(rfor, ast.For) and not hasattr(rfor, 'c13_row'):
+            inc = _incremental_row(fx, rfor, r.id, rowvar, rcall)
+            if inc is not None:
+                rfixed, rcustom = inc
     F.row_func = rowf
     if isinstance(rfixed, ast.ListComp):
         # table-driven default cells: `[fmt(getattr(task, name)) for name, fmt in <literal (name, formatter) table>]`
@@ -560,6 +570,69 @@ def _cross_call_state(ctx, f, e):
             if isinstance(n, ast.Name) and isinstance(n.ctx, ast.Load) and n.id in stores:
                 return n.id, stores[n.id], conds
     return None
+
+
+def _incremental_row(fx, rfor, name, rowvar, rcall):
+    """the row list `name` assembled statement by statement in the body of the row loop:
+        name = [a, ..]; name.append(E); name.extend([..]) / name += [..]; `if c: name.append(A) else: name.append(B)`;
+        `for v in (X, Y, ..): <one append per pass>` (a literal tuple: unrolled);
+        finally, optionally, `for k in <custom column list>: <one append per pass>` (the custom cells)
+    -> (ast.List of the fixed cells, ListComp of the custom cells or None); anything else touching the list -> None"""
+    from .c13_util import loop_elt
+    cells, custom = None, None
+
+    def touches(st):
+        return any(isinstance(n, ast.Name) and n.id == name for n in ast.walk(st))
+
+    for st in rfor.body:
+        if not touches(st):
+            if isinstance(st, (ast.Assign, ast.AnnAssign, ast.Pass)) or (isinstance(st, ast.Expr) and isinstance(st.value, ast.Constant)):
+                continue
+            if any(isinstance(n, (ast.Continue, ast.Break, ast.Return)) for n in ast.walk(st)):
+                return None
+            continue
+        if custom is not None and not (isinstance(st, ast.Expr) and st.value is rcall):
+            return None             # something is added after the custom cells
+        if isinstance(st, ast.Assign) and len(st.targets) == 1 and isinstance(st.targets[0], ast.Name) and st.targets[0].id == name \
+                and isinstance(st.value, (ast.List, ast.Tuple)) and cells is None:
+            cells = [fx.x(e, keep=[rowvar]) for e in st.value.elts]
+            continue
+        if cells is None:
+            return None
+        if isinstance(st, ast.Expr) and st.value is rcall:
+            break
+        if isinstance(st, ast.AugAssign) and isinstance(st.op, ast.Add) and isinstance(st.target, ast.Name) and st.target.id == name \
+                and isinstance(st.value, (ast.List, ast.Tuple)):
+            cells += [fx.x(e, keep=[rowvar]) for e in st.value.elts]
+            continue
+        if isinstance(st, ast.Expr) and isinstance(st.value, ast.Call) and isinstance(st.value.func, ast.Attribute) \
+                and isinstance(st.value.func.value, ast.Name) and st.value.func.value.id == name and st.value.func.attr == 'extend' \
+                and len(st.value.args) == 1 and isinstance(st.value.args[0], (ast.List, ast.Tuple)):
+            cells += [fx.x(e, keep=[rowvar]) for e in st.value.args[0].elts]
+            continue
+        if isinstance(st, (ast.Expr, ast.If)):
+            e = loop_elt(fx, [st], name, [rowvar])
+            if e is None or isinstance(e, tuple):
+                return None
+            cells.append(e)
+            continue
+        if isinstance(st, ast.For) and isinstance(st.target, ast.Name) and not st.orelse \
+                and not any(isinstance(n, (ast.Break, ast.Continue, ast.Return, ast.For, ast.While)) for b in st.body for n in ast.walk(b)):
+            v = st.target.id
+            e = loop_elt(fx, st.body, name, [rowvar, v])
+            if e is None or isinstance(e, tuple):
+                return None
+            if isinstance(st.iter, (ast.Tuple, ast.List)):
+                for x in st.iter.elts:
+                    cells.append(subst(e, {v: fx.x(x, keep=[rowvar])}))
+            else:
+                custom = ast.fix_missing_locations(ast.ListComp(elt=e, generators=[ast.comprehension(
+                    target=ast.Name(id=v, ctx=ast.Store()), iter=fx.x(st.iter, keep=[rowvar]), ifs=[], is_async=0)]))
+            continue
+        return None
+    if cells is None:
+        return None
+    return ast.fix_missing_locations(ast.List(elts=cells, ctx=ast.Load())), custom
 
 
 def _custom_columns(ctx, o, F, f, fx, hcall, rcall, hcustom, rcustom, rfor, rowvar, rowf):
@@ -1423,6 +1496,9 @@ def _text_altering(leaf, S):
         return True
     if isinstance(n, ast.Call) and isinstance(n.func, ast.Attribute) and n.func.attr == 'join' and n.args and _mentions(n.args[0], S):
         return True
+    if isinstance(n, ast.Call) and (attr_path(n.func) or '').split('.')[-1] == 'normalize' and len(n.args) == 2 and const_str(n.args[0]) is not None \
+            and _mentions(n.args[1], S):
+        return True         # unicodedata.normalize('NFC', S): text not already in that form changes
     return False
 
 
@@ -1556,6 +1632,12 @@ def _reader_column(ctx, o, f, node, col, vx, S, W, R):
                     bad(src(leaf)[:60], f"`{col}` is read with bool(cell): the text 'False' is truthy")
                 else:
                     unk(leaf, f"parser form `{src(leaf)[:60]}` of `{col}` not recognised")
+                continue
+            if (wt, wf_) != ('True', 'False') and (not acc('True') or acc('False')) and acc(wt) and not acc(wf_):
+                bad(f"{src(leaf)[:50]} vs legacy 'True'/'False'",
+                    f"`{col}` is now written as {wt!r}/{wf_!r} and read by `{src(leaf)[:50]}`, which maps 'True' to {acc('True')} and 'False' to "
+                    f"{acc('False')}: a file in this layout written by an earlier version (or by hand) spells the flag 'True'/'False' (str of the "
+                    f"bool) and loads with a different meaning")
                 continue
             if not acc(wt) or acc(wf_):
                 bad(src(leaf)[:60], f"`{col}` is written as {wt!r}/{wf_!r} but read by `{src(leaf)[:50]}`, which maps "
@@ -2053,7 +2135,11 @@ def _hop_kw(o, fn, call, field, value, srcvar, what, ctx=None, body=None):
                     and FIELD_KIND.get(field) in ({'text', 'date'} | ({'float', 'optint'} if 'none' in facts else set())):
                 continue
             ok = False
-            if isinstance(leaf, ast.Constant) and unknown and not any(_mentions(t, want) for t, _p in unknown):
+            if FIELD_KIND.get(field) == 'text' and _text_altering(leaf, want):
+                o.refute(fn, call, f"{what}({field}={src(leaf)[:50]})",
+                         f"{what}(...) receives `{src(leaf)[:60]}` as `{field}`: the text is rewritten on the way (text fields may contain any characters), "
+                         f"so a {field} that is not already in that form does not come back equal")
+            elif isinstance(leaf, ast.Constant) and unknown and not any(_mentions(t, want) for t, _p in unknown):
                 o.refute(fn, call, f"{what}({field}={src(leaf)} when {cond_text(unknown)[:50]})",
                          f"{what}(...) receives the constant {src(leaf)} instead of {srcvar}.{field} when `{cond_text(unknown)[:60]}` - a condition that says "
                          f"nothing about {srcvar}.{field} itself: the value such objects carry is not written and comes back as {src(leaf)}")
@@ -2213,9 +2299,14 @@ def ob_fields(ctx, o, F):
     for fn, body, gc in ((t2r, t2r_b, acopy), (r2w, r2w_b, dcopy)):
         if gc is None or gc.wrap is None:
             continue
-        wname, wcall = gc.wrap
+        wname, wcall = gc.wrap[:2]
+        wleaf, wbase = (gc.wrap[2], gc.wrap[3]) if len(gc.wrap) == 4 else (None, None)
         num = _numeric_cast(ctx, body, wname)
-        if num is not None:
+        if num is None and wleaf is not None and _text_altering(wleaf, wbase):
+            o.refute(fn, wcall, f"custom value through {src(wleaf)[:50]}",
+                     f"the generic attribute copy stores `{src(wleaf)[:60]}` for text values: the text is rewritten on the way (custom attributes may "
+                     f"contain any characters and compare as strings), so a value that is not already in that form does not come back equal")
+        elif num is not None:
             o.refute(fn, wcall, f"custom value through {wname}(..) -> {num}",
                      f"the generic attribute copy stores `{src(wcall)[:60]}`: `{wname}` turns the value into a number with {num}; custom attributes travel as "
                      f"text and compare as strings, and number text that is not in canonical form ('02134', '1.10', '1e5', ' 7 ') does not come back "
